@@ -108,8 +108,26 @@ void World::build_common()
 
 Bytes World::make_packet(const J &op)
 {
+	if (op.has("kfrag") && !op.has("_len")) {
+		// a frame whose compressed size is exactly k fragments (or chunks) plus d bytes, in the direction it will travel: the sizes
+		// at which "fits in 16 fragments", "last fragment" and the per-fragment arithmetic change their answer
+		size_t F = 0;
+		if (op.gets("at") == "srv") { UserView v; int uid = clients.empty() ? 0 : std::max(0, clients[0].userid); if (peek_user(uid, v)) F = (size_t)v.fragsize; }
+		else F = up_chunk;
+		long long target = (long long)F * op.geti("kfrag") + op.geti("dfrag");
+		if (F >= 2 && target >= 40 && target <= 60000) {
+			J o2 = op; o2.set("body", "rnd");
+			long long L = target - 11;
+			for (int it = 0; it < 6 && L >= 24; it++) {
+				o2.set("_len", L);
+				long long z = (long long)z_compress(make_packet(o2)).size();
+				if (z == target) { probes["gen.kfrag_exact"]++; return make_packet(o2); }
+				L += target - z;
+			}
+		}
+	}
 	uint64_t ser = (uint64_t)op.geti("ser");
-	size_t len = (size_t)op.geti("len", 100);
+	size_t len = (size_t)(op.has("_len") ? op.geti("_len") : op.geti("len", 100));
 	if (len < 1) len = 1;
 	if (len > 65000) len = 65000;
 	std::string body = op.gets("body", "rnd");
@@ -366,6 +384,14 @@ struct WorldTracker : Monitor {
 		if (!s || !s->owner || s->owner == w->srv || d.data.size() < 2 || d.dst.port != 53) return;
 		auto &q = w->recent_ids[s->owner->name];
 		q.push_back((uint16_t)((d.data[0] << 8) | d.data[1])); if (q.size() > 20) q.pop_front();
+		// size of a full upstream chunk of a real client, as seen on the wire (for frames sized or aligned to it)
+		if (w->client_of(s->owner) && d.data.size() > 40 && !(d.data[0] == 0x10 && d.data[1] == 0xd1)) {
+			DnsMsg m; UpQuery u; UserView v;
+			if (dns_parse_strict(d.data, m).empty() && !m.qd.empty() && decode_upquery(m.qd[0].name.dotted(), w->domain, u) && u.cmd == 'd' && !u.last && peek_user(u.userid, v)) {
+				int c = codec_from_name(v.encoder);
+				if (c) { size_t n = codec_decode(c, u.enc_payload).size(); if (n > w->up_chunk) w->up_chunk = n; }
+			}
+		}
 	}
 	void on_block(Task &t) override
 	{
